@@ -150,11 +150,12 @@ PROPS = {}
 PROPS['C01'] = dict(
     theorems=[],
     runner=ReaderRunner(
-        quick=[('fa_exh', 5), ('fa_rand', 20000)],
-        thorough=[('fa_exh', 7), ('fa_rand', 400000)],
+        quick=[('fa_exh', 5), ('fa_rand', 20000), ('fa_path', 1500)],
+        thorough=[('fa_exh', 7), ('fa_rand', 400000), ('fa_path', 20000)],
         oracle=hist(False, False, False, 'fa')),
     rule='every string over {>,LF,CR,A,space} up to the length bound x every capacity 3..len+2 x chunkings {whole,1,2}, '
-         'plus grammar-based and mutated FASTA files under random capacities, policies and read scripts; '
+         'plus grammar-based and mutated FASTA files under random capacities, policies and read scripts, and readers opened with '
+         'from_path / from_path_with_capacity on a real file (`P` cases); '
          'non-trivial = at least one record or error delivered and checked against S; distinct by case line',
     assumptions=ASSUME_READER,
 )
@@ -162,8 +163,8 @@ PROPS['C01'] = dict(
 PROPS['C02'] = dict(
     theorems=[],
     runner=ReaderRunner(
-        quick=[('fq_exh', 5), ('fq_rand', 20000)],
-        thorough=[('fq_exh', 7), ('fq_rand', 400000)],
+        quick=[('fq_exh', 5), ('fq_rand', 20000), ('fq_path', 1500)],
+        thorough=[('fq_exh', 7), ('fq_rand', 400000), ('fq_path', 20000)],
         oracle=hist(False, False, False, 'fq')),
     rule='every string over {@,+,LF,CR,A,space} up to the length bound x capacities x chunkings, plus grammar-based and '
          'mutated FASTQ files; non-trivial = at least one record delivered and checked against S',
